@@ -29,6 +29,22 @@ theorem scriggo_runtimeError_never_fatal (op : Op) (neg nat : Bool) (m : List UI
       Bool.or_eq_true, Bool.false_and] <;>
     (repeat' split) <;> simp
 
+/-- a Scriggo run-time error recovered while no function is running (a deferred native call
+made while unwinding) becomes a PanicError -/
+theorem noFn_scriggoRuntimeError_is_panicError (p : Payload) (h : p.isScriggoRuntimeError = true) :
+    classifyNoFn p = .panicError := by
+  cases p <;> simp_all [classifyNoFn, Payload.isScriggoRuntimeError, Payload.isFatalError]
+
+/-- … and so it does at every operation but OpGo (which returns the error values it recovers
+as they are) -/
+theorem scriggo_runtimeError_is_panicError (op : Op) (neg nat : Bool) (m : List UInt8)
+    (hop : op ≠ .OpGo) : classifyOp op neg nat (.scriggoRuntimeError m) = .panicError := by
+  cases op <;> cases neg <;>
+    simp only [classifyOp, tail, Payload.isRuntimeError, Payload.isString, Payload.isScriggoRuntimeError,
+      Payload.isFatalError, Payload.isError, passErr, Payload.msg, if_true, if_false, Bool.false_eq_true,
+      Bool.or_eq_true, Bool.false_and] <;>
+    first | (exact absurd rfl hop) | ((repeat' split) <;> simp)
+
 /-- **C05, classification.** Whatever an operation can raise on compiled code (`canRaise`),
 `convertPanic` does not turn into a fatal error — for every operation, with or without a
 running function, for every message. -/
